@@ -74,7 +74,8 @@ class Importer:
             self._next_stage_parents = []
 
             if row[0].startswith("!!"):
-                self._compute_metacomment_token(row[0].strip())
+                # a global comment is the whole line: a tab inside it ('!!!COM:<tab>Name') does not separate cells
+                self._compute_metacomment_token('\t'.join(row).strip())
             else:
                 for icolumn, column in enumerate(row):
                     if column.startswith("**"):
